@@ -59,7 +59,7 @@ class C12(Check):
     STUB = ['peer mode: scripted SECoP server', 'TCP (sim.net)', 'hardware (fake driver)', 'clock']
     ASSUMPTIONS = ['values are compared in wire form by the harness\' own conversion (floats within resolution)',
                    'a registration is ordered against the message stream by a sync marker the peer sends']
-    PROBES = ('c12.peer-mode', 'c12.e2e-mode', 'c12.proxy-mode', 'c12.malformed', 'c12.future-timestamp',
+    PROBES = ('c12.peer-mode', 'c12.e2e-mode', 'c12.proxy-mode', 'c12.driver-update', 'c12.mirror-compared', 'c12.malformed', 'c12.future-timestamp',
               'c12.shorthand', 'c12.raising-callback', 'c12.oneshot-callback', 'c12.proxy-drop')
 
     def gen_case(self, rng, tier):
@@ -142,6 +142,17 @@ class C12(Check):
                                                                    for c in s['cmds'])]
             if mode == 'proxy' and rng.random() < 0.4:
                 ops.insert(rng.randrange(len(ops) + 1), {'op': 'drop'})
+            # meanwhile the drivers of the node announce new values on their own (second sender on the connection)
+            bg = []
+            used = {(o['m'], o.get('p')) for o in ops if 'm' in o}
+            free = [(s, p) for s in specs for p in s['params'] if (s['name'], p['name']) not in used]
+            if free and rng.random() < 0.6:
+                for _ in range(rng.randrange(2, 12)):
+                    # (parameters which the foreground operations do not use: their read-back is judged exactly)
+                    s, p = rng.choice(free)
+                    bg.append({'m': s['name'], 'p': p['name'], 'v': dtgen.valid_wire(rng, p['di']),
+                               'dt': rng.choice([0, 0, 0.001, 0.05, 0.3])})
+            return {'shape': shape, 'ops': ops, 'faults': bg}
         return {'shape': shape, 'ops': ops}
 
     def shrink_candidates(self, case):
@@ -311,6 +322,23 @@ class C12(Check):
         di_of = {(s['name'], p['name']): p['di'] for s in shape['specs'] for p in s['params']}
         cmd_of = {(s['name'], c['name']): c for s in shape['specs'] for c in s['cmds']}
         me = threading.current_thread().name
+
+        def updater():
+            for u in case.get('faults') or ():
+                if u['dt']:
+                    time.sleep(u['dt'])
+                else:
+                    sim.yield_point()
+                mobj = node.secnode.modules[u['m']]
+                try:
+                    value = dtgen.to_internal(di_of[u['m'], u['p']], u['v'])
+                    drv.reg[u['m'], u['p']] = value
+                    setattr(mobj, u['p'], value)
+                    sim.count('c12.driver-update')
+                except Exception:   # noqa
+                    pass
+        upd = threading.Thread(target=updater, name='updater')
+        upd.start()
         for op in case['ops']:
             rec = {'op': op, 'ncalls': len(drv.calls), 'seq0': sim.next_seq()}
             try:
@@ -344,6 +372,20 @@ class C12(Check):
             rec['calls'] = [c for c in drv.calls[rec['ncalls']:] if c['kind'] != 'check']
             drv.override.clear()
             results.append(rec)
+        upd.join()
+        # quiescence, then the mirror: what the client holds against what the node holds
+        time.sleep(3)
+        mirror = ctx['mirror'] = []
+        for (m, pn), di in di_of.items():
+            pobj = node.secnode.modules[m].parameters[pn]
+            if not pobj.export:
+                continue
+            try:
+                nodeval = ['err'] if pobj.readerror else ['ok', dtgen.to_wire(di, pobj.value)]
+            except Exception as e:   # noqa
+                nodeval = ['unexportable', repr(e)]
+            item = cl.cache.get((m, pn))
+            mirror.append((m, pn, nodeval, None if item is None else self._item(di, item)))
         cl.disconnect()
         if shape['mode'] == 'proxy':
             for m in ctx['nodeb'].secnode.modules.values():
@@ -520,6 +562,22 @@ class C12(Check):
         shape = case['shape']
         di_of = {(s['name'], p['name']): p for s in shape['specs'] for p in s['params']}
         cmd_of = {(s['name'], c['name']): c for s in shape['specs'] for c in s['cmds']}
+        dropped = any(r['op']['op'] == 'drop' for r in ctx['results'])
+        errlog = [l for l in ctx['clientlog'] if l[0] in ('ERROR', 'WARNING') and 'error handling SECoP message' in str(l[1])]
+        if errlog and not dropped:
+            res.append(Violation('C12.malformed-message-at-client', shape['mode'],
+                                 f'the client could not handle a message of the node: {errlog[0][1][:300]!r}'))
+        if not dropped:
+            for m, pn, nodeval, clientval in ctx.get('mirror', ()):
+                sim.counters['c12.mirror-compared'] = sim.counters.get('c12.mirror-compared', 0) + 1
+                if nodeval[0] != 'ok' or clientval is None:
+                    continue
+                di = di_of_plain = next(p['di'] for s in shape['specs'] if s['name'] == m for p in s['params'] if p['name'] == pn)
+                if clientval[0] != 'ok' or not dtgen.wire_equal(di, nodeval[1], clientval[1]):
+                    res.append(Violation('C12.cache-not-mirrored', f'{shape["mode"]}|{di["type"]}',
+                                         f'{m}:{pn}: the node holds {nodeval[1]!r}, the client cache {clientval!r} '
+                                         f'3 s after the last operation'))
+                    break
         dropped = False
         for rec in ctx['results']:
             op = rec['op']
